@@ -90,7 +90,9 @@ private def polyGuardBits (pl : Polyline) (w : Nat) (dr : Joins.PolyDraw) : Stri
 `TriTopGuard`, `TriStrokeGuard`, its three `adjOK` conjuncts alone (both `-` unless the width is >= 2
 and the alignment is not Inside: the other hypotheses of the two guarded theorems), `TriOutlineGuard`
 (Props/C02/JoinsBBox.lean; `-` unless the width is >= 2, the alignment is Inside and the triangle is not
-collapsed: the one case no unguarded theorem covers, see the `[V]` line there). `collapsed` is
+collapsed: the one case no unguarded theorem covers, see the `[V]` line there), `TriStrokeColumnsGuard`
+(Props/C02/JoinsBBoxAlign.lean: `TriStrokeGuard` with the vertex clause weakened to the columns of the box;
+sixth bit, tools/check.py reports it as `bit 5`; `-` like `TriStrokeGuard`). `collapsed` is
 `is_collapsed` of the clockwise-sorted triangle, the `c=` field of the result line. -/
 private def triGuardBits (tri : Joins.Tri) (style : Joins.TriStyle) (calls : List (Rect × Nat))
     (collapsed : Bool) : String :=
@@ -101,7 +103,8 @@ private def triGuardBits (tri : Joins.Tri) (style : Joins.TriStyle) (calls : Lis
     guardBit true (Joins.GuardBits.triTopGuard tri),
     guardBit (wide && !inside) (Joins.GuardBits.triStrokeGuard tri style),
     guardBit (wide && !inside) (Joins.GuardBits.triAdjOK tri style),
-    guardBit (wide && inside && !collapsed) (Joins.GuardBits.triOutlineGuard tri style)]
+    guardBit (wide && inside && !collapsed) (Joins.GuardBits.triOutlineGuard tri style),
+    guardBit (wide && !inside) (Joins.GuardBits.triStrokeColumnsGuard tri style)]
 
 def handleThick (stream : String) (t : Toks) : Option String :=
   match stream with
